@@ -308,7 +308,7 @@ func zzTimeAfter(d time.Duration) <-chan time.Time {
 	return ch
 }
 func zzNewRequest(ctx context.Context, method, url string, body io.Reader) (*http.Request, error) {
-	return &http.Request{Method: method, Header: http.Header{}}, nil
+	return (&http.Request{Method: method, Header: http.Header{}}).WithContext(ctx), nil
 }
 func zzSetMCPHeaders(c *streamableClientConn, req *http.Request, msg jsonrpc.Message) error { return nil }
 func zzReconnectDelay(attempt int) time.Duration                                                     { return 1 }
@@ -319,6 +319,10 @@ func zzClientDo(_ *http.Client, req *http.Request) (*http.Response, error) {
 	s.attempts++
 	last := req.Header.Get(lastEventIDHeader)
 	s.gets = append(s.gets, last)
+	// every reconnect is a GET for an event stream that names the session it resumes (C11: a request without the id
+	// would be answered as a new, unknown client)
+	vAssert(req.Method == http.MethodGet && req.Header.Get("Accept") == "text/event-stream", "C09.resume.get-asks-for-an-event-stream")
+	vAssert(req.Header.Get(sessionIDHeader) == "S1", "C11.resume.get-carries-the-session-id")
 	if s.budget > 0 && vBool("transportError") {
 		s.budget--
 		s.doErrors++
@@ -350,6 +354,7 @@ func zzC09Resume() {
 	c := zzNewClientConn()
 	c.maxRetries = vParam("maxRetries")
 	c.client = &http.Client{}
+	c.sessionID = "S1"
 	forCall := &jsonrpc.Request{ID: jsonrpc2.Int64ID(99), Method: "tools/call"}
 	first := &http.Response{StatusCode: 200, Body: srv.body(0)}
 	c.handleSSE(context.Background(), "POST", first, forCall)
@@ -447,3 +452,4 @@ func zzC09ReadAfterFail() {
 	cancel()
 	vReach("end")
 }
+func zzNoMeta9(raw []byte) Meta { return nil }
